@@ -35,9 +35,9 @@ type omState struct {
 
 type omCase struct {
 	Spell     map[string]string `json:"spell,omitempty"` // a row of OrderedMap!Spellings (placeholders as TLC printed them); nil = keys spelled as named
-	Container string    `json:"container"`
-	Ops       []omOp    `json:"ops"`
-	Expect    []omState `json:"expect"` // state after each op (same length as Ops)
+	Container string            `json:"container"`
+	Ops       []omOp            `json:"ops"`
+	Expect    []omState         `json:"expect"` // state after each op (same length as Ops)
 }
 
 var omKeys = []string{"k1", "k2", "k3", "k4", "k5", "k6"}
